@@ -21,6 +21,64 @@ ERR_EXCEPTIONS = {
 }
 
 
+def _mask_bit(f, op):
+    """k when the operand is the constant 1 << k (literal, or `Shl(1, k)` of literals), else None"""
+    k = op_const(op)
+    if k is not None:
+        v = const_int(k)
+        return (v.bit_length() - 1) if v and v & (v - 1) == 0 else None
+    p = op_place(op)
+    for _ in range(4):
+        if p is None or p[1]:
+            return None
+        ds = f.defs().get(p[0], [])
+        if len(ds) != 1 or ds[0][1] == "t":
+            return None
+        rv = ds[0][2]["rv"]
+        if rv.get("k") == "use":
+            k = op_const(rv["a"])
+            if k is not None:
+                v = const_int(k)
+                return (v.bit_length() - 1) if v and v & (v - 1) == 0 else None
+            p = op_place(rv["a"])
+            continue
+        if rv.get("k") == "bin" and rv["op"].startswith("Shl"):
+            ka, kb = op_const(rv["a"]), op_const(rv["b"])
+            if ka is not None and kb is not None and const_int(ka) == 1:
+                return const_int(kb)
+        return None
+    return None
+
+
+def _fields_set_in(f, region):
+    """names of the fields / user variables that are given a `Some(..)` inside the region"""
+    out = set()
+    vn = f.names()
+    somes = set()
+    for bi in region:
+        for st in f.stmts(bi):
+            if "lhs" in st and st["rv"].get("k") == "agg" and st["rv"].get("variant") == "Some" and not st["lhs"][1]:
+                somes.add(st["lhs"][0])
+
+    def name_of(l, proj):
+        if proj:
+            m = re.search(r":([a-z_][a-z_0-9]*)$", str(proj[-1]))
+            return m.group(1) if m else None
+        return vn.get(l)
+    for bi in region:
+        for st in f.stmts(bi):
+            if "lhs" not in st:
+                continue
+            l, proj = st["lhs"]
+            rv = st["rv"]
+            src = op_place(rv.get("a")) if rv.get("k") == "use" else None
+            if (rv.get("k") == "agg" and rv.get("variant") == "Some") or (src and not src[1] and src[0] in somes):
+                nm = name_of(l, proj)
+                if nm:
+                    out.add(nm)
+    return out
+
+
 def run(ck):
     ck.explanation = ("Decides writer/reader agreement of codec steps for %s pairs, tag totality of every input-driven switch, strict "
                       "ordering of maps/sets, bitmap canonicity, exact consumption at declared lengths and bounded pre-allocation in "
@@ -68,6 +126,7 @@ def run(ck):
     # presence bits: a field is read exactly on the branch taken when its bit is SET (the writer sets the bit when the field
     # is present); a flipped test reads the field when it is absent
     npb = 0
+    rbits = {}
     for ty, b in sorted(rs.items()):
         f = Fn(b)
         bm = sweeps.bitmap_locals(f)
@@ -90,6 +149,7 @@ def run(ck):
                         mo = f.origins(it["rv"]["b"])
                         lits = [a[1] for a in mo if a[0] == "lit"]
                         mask = lits
+                        maskop = it["rv"]["b"]
             if mask is None:
                 continue
             br = rules.cmp_branches(f, cx)
@@ -105,11 +165,45 @@ def run(ck):
             if not rd(reg_set) and not rd(reg_clr):
                 continue        # not a presence bit (e.g. the undefined-bits test)
             npb += 1
+            # which field does this bit announce (for the writer/reader agreement below)
+            bitno = _mask_bit(f, maskop)
+            if bitno is not None:
+                for fldname in _fields_set_in(f, reg_set):
+                    rbits.setdefault(ty, {}).setdefault(bitno, set()).add(fldname)
             ok = bool(rd(reg_set)) and not [x for x in rd(reg_clr) if x not in reg_set and not f.dominates(set_t, x)]
             # blocks after the join are dominated by neither branch, so only the branch-private blocks count
             ck.ob("BITMAP", f.path, "presence-bit-polarity@bb%d" % cx["bb"], ok,
                   "the field is read on the branch taken when the bit is set" if ok else "the field is read on the branch taken when the bit is CLEAR (test `%s 0` flipped)" % cx["op"], f.loc(cx["bb"]))
     ck.floor("BITMAP", "presence-bit tests", npb, 12)
+    # writer and reader agree on WHICH bit announces which field: the writer's `set_if(k, data.<field>.is_some())` against
+    # the reader's `if bitmap & (1 << k) != 0 { <field> = Some(read) }`
+    nmap = 0
+    for ty in sorted(rbits):
+        if ty not in ws:
+            continue
+        w = Fn(ws[ty])
+        wbits = {}
+        for g in [w] + [Fn(b2) for p2 in sorted(c.paths()) if p2.startswith(w.path + "::{closure") for b2 in c.get_all(p2)]:
+            for bi in sorted(g.reachable()):
+                for st in g.stmts(bi):
+                    rv = st.get("rv", {})
+                    if rv.get("k") == "agg" and rv.get("agg") == "tuple" and len(rv["ops"]) == 2:
+                        k0 = op_const(rv["ops"][0])
+                        if k0 is None or const_int(k0) is None:
+                            continue
+                        o = g.origins(rv["ops"][1], deep=True)
+                        if has_call_origin(o, r"Option::<T>::is_some$"):
+                            flds = [a[1] for a in g.origins(rv["ops"][1], deep=True) if a[0] == "field" and not a[1].isdigit() and a[1] not in ("data", "pointer")]
+                            for fl in flds:
+                                wbits.setdefault(const_int(k0), set()).add(fl)
+        if not wbits:
+            continue
+        nmap += 1
+        diff = {k: (sorted(wbits.get(k, ())), sorted(rbits[ty].get(k, ()))) for k in sorted(set(wbits) | set(rbits[ty])) if wbits.get(k, set()) != rbits[ty].get(k, set())}
+        ck.ob("BITMAP", ty, "presence-bits-announce-the-same-fields", not diff,
+              "writer and reader use the same bit for every optional field (%d bits)" % len(wbits) if not diff else
+              "bit -> field differs between writer and reader: %s" % {k: {"writer": v[0], "reader": v[1]} for k, v in diff.items()}, w.loc())
+    ck.floor("BITMAP", "types with a writer/reader presence-bit map", nmap, 1)
     ck.floor("BITMAP", "optional-field bitmaps", nb, 3)
 
     # ---- exact consumption of a declared length: `read`, `read_to_end`, `read_to_string` (also behind `take(l)`) deliver UP TO
